@@ -495,6 +495,7 @@ namespace bxdecay0 {
       bbpars raz;
       _pimpl_->bb_params = raz;
     }
+    _pimpl_->use_dbd_ga = false;
     if (_decay_version_.empty()) {
       set_decay_version(BXDECAY0_LIB_VERSION);
     }
